@@ -173,16 +173,27 @@ def registry(seed):
                 add("ellswift.xdh", f"{ell.hex()[:8]}|{d}|{init}", lambda ell=ell, d=d, init=init: ellswift.xdh(ELL[2], ell, d, initiating=init) if init else ellswift.xdh(ell, ELL[2], d, initiating=init))
     # ---- taproot
     for ik in (good, goodu, xq.to_bytes(32, "big"), ENC[9], ENC[10], ENC[6], b"\x02" + bytes(32), Qk, xq, offx):
-        for tree in (None, [[(0xC0, ["OP_1"])]]):
-            add("taproot.output_pubkey", f"{_d(ik)}|{tree is None}", lambda ik=ik, tree=tree: taproot.output_pubkey(ik, tree))
+        for tree in (None, [[(0xC0, ["OP_1"])]], [(0xC0, ["OP_1"])], [[(0xC0, ["OP_1"])], [(0xC0, ["OP_2"])]]):
+            add("taproot.output_pubkey", f"{_d(ik)}|{repr(tree)[:14]}", lambda ik=ik, tree=tree: taproot.output_pubkey(ik, tree))
     for q in (1, 2, n - 1, 0, n, odd, gen):
-        for tree in (None, [[(0xC0, ["OP_1"])]]):
-            add("taproot.output_prvkey", f"{q}|{tree is None}", lambda q=q, tree=tree: taproot.output_prvkey(q, tree))
+        for tree in (None, [[(0xC0, ["OP_1"])]], [(0xC0, ["OP_1"])]):
+            add("taproot.output_prvkey", f"{q}|{repr(tree)[:14]}", lambda q=q, tree=tree: taproot.output_prvkey(q, tree))
     qk, par = _with_py(lambda: taproot.output_pubkey(xq.to_bytes(32, "big"), None))
     for qq in (qk, offx.to_bytes(32, "big"), bytes(32), qk[:-1], p.to_bytes(32, "big")):
         for cb in (bytes([0xC0 + par]) + xq.to_bytes(32, "big"), bytes([0xC1 - par]) + xq.to_bytes(32, "big"), bytes([0xC0]) + offx.to_bytes(32, "big"),
                    bytes([0xC0]) + p.to_bytes(32, "big"), bytes(33), bytes(32), bytes(65)):
             add("taproot.check_output_pubkey", f"{qq.hex()[:8]}|{cb.hex()[:10]}|{len(cb)}", lambda qq=qq, cb=cb: taproot.check_output_pubkey(qq, b"\x51", cb))
+    # the same with an output key that does commit to the leaf: the honest control block is a proof, and the parity bit
+    # of its first byte is part of it
+    for ikx in [_py_mult(kk)[0] for kk in range(2, 8)]:  # both parities of the output key occur
+        ikb = ikx.to_bytes(32, "big")
+        try:
+            qk2, par2 = _with_py(lambda ikb=ikb: taproot.output_pubkey(b"\x02" + ikb, [(0xC0, ["OP_1"])]))  # 32 bare bytes would be read as a private key
+        except Exception:  # noqa: BLE001
+            continue
+        for cb in (bytes([0xC0 + par2]) + ikb, bytes([0xC1 - par2]) + ikb, bytes([0xC0 + par2]) + ikb + bytes(32), bytes([0xC2 + par2]) + ikb):
+            for script in (b"\x51", b"\x52"):
+                add("taproot.check_output_pubkey", f"leaf|{qk2.hex()[:8]}|{cb.hex()[:4]}|{len(cb)}|{script.hex()}", lambda qq=qk2, cb=cb, script=script: taproot.check_output_pubkey(qq, script, cb))
     # ---- BIP32
     for seed_ in (bytes(16), bytes(range(32)), hashlib.sha512(b"s%d" % seed).digest()):
         root = _with_py(lambda: bip32.rootxprv_from_seed_(seed_))
